@@ -167,7 +167,7 @@ SPEC = {
              'operand tuples over {F,T,U}. Non-trivial: some gate is defined while an input it structurally '
              'depends on is undefined.'),
     'assumptions': ['reference full tables from vlib/refsem.py'],
-    'subs': [Sub('partial', cases, check_partial, {'quick': 1500, 'thorough': 15000})],
+    'subs': [Sub('partial', cases, check_partial, {'quick': 1500, 'thorough': 75000})],
     'exhaustive': {'operator_tables': operator_tables},
     'required_classes': {'partial': ['nary>=3', 'LR_gate', 'cmp_gate', 'constant', 'dup_operand', 'dead_gate']},
 }
